@@ -33,6 +33,9 @@ func applyExclusions(spec *GenSpec) {
 	if excluded("struct-only-batches") {
 		spec.NoStructOnly = true
 	}
+	if excluded("struct-only-into-empty-store") {
+		spec.NoStructOnlyEmpty = true
+	}
 	if excluded("child-recreate") {
 		spec.NoRecreate = true
 	}
